@@ -2,8 +2,8 @@ SPECIFICATION Spec
 CONSTANTS
   MaxScales = 3
   MaxLen = 4
-  RescaleOnSameList = TRUE
-  KeepCallersList = TRUE
+  RescaleOnSameList = FALSE
+  KeepCallersList = FALSE
   ShareListsOnCopy = FALSE
   Doms = {"dA", "dB"}
   Rngs = {"rB"}
